@@ -11,6 +11,7 @@ from pathlib import Path
 
 import networkx as nx
 import numpy as np
+import tifffile
 
 import common as C
 
@@ -246,10 +247,26 @@ def make_tracks(times, edges, seg=None):
     return W._sol(dict(times), list(edges), seg=seg, ndim=ndim)
 
 
-def run_csv(tracks, sel, path):
+def shifted_track_ids(tracks, off):
+    """the same solution with every track id raised by off (existing valid ids are kept on construction)"""
+    from funtracks.data_model import SolutionTracks
+
+    g = tracks.graph
+    g2 = nx.DiGraph()
+    for n in g.nodes:
+        g2.add_node(n, time=int(tracks.get_time(n)), track_id=int(tracks.get_track_id(n)) + off)
+    g2.add_edges_from(g.edges)
+    seg = np.array(tracks.segmentation)
+    return SolutionTracks(g2, segmentation=seg, ndim=seg.ndim)
+
+
+def run_csv(tracks, sel, path, seg_path=None):
     from funtracks.import_export import export_to_csv
 
-    export_to_csv(tracks, path, node_ids=sel)
+    if seg_path is not None:
+        export_to_csv(tracks, path, node_ids=sel, export_seg=True, seg_path=seg_path)
+    else:
+        export_to_csv(tracks, path, node_ids=sel)
     with open(path, newline="") as fh:
         rd = list(csv.DictReader(fh))
     rows = []
@@ -349,15 +366,23 @@ def run(ctx):
                 c["gnodes"] = None
                 c["exc"] = "%s: %s" % (type(e).__name__, str(e)[:120])
             shutil.rmtree(d, ignore_errors=True)
-            if with_seg and zi % 3 == 0:  # the CSV export of tracks that carry a segmentation
+            if with_seg and (zi % 3 == 0 or not long_t):  # the CSV export of tracks that carry a segmentation
                 c2 = {"kind": "K", "g": g, "sel": sel, "line": model_line("K", g, sel), "times": times, "api": "csv"}
                 c2["keep"] = sorted(filter_graph_with_ancestors(g, set(sel)))
+                # track ids may be much larger than node ids (every split allocates a fresh one): the
+                # exported label image is relabelled by track id and must still hold every kept mask
+                off = 0 if merged else rng.choice([0, 0, 250, 65530, 2 ** 32 - 3])  # (rebuilding a merge graph would reorder parents)
+                tr2 = tracks if off == 0 else shifted_track_ids(tracks, off)
                 try:
-                    c2["rows"] = run_csv(tracks, set(sel), root / "out.csv")
+                    c2["rows"] = run_csv(tr2, set(sel), root / "out.csv", seg_path=root / "out.tif")
+                    c2["tif"] = np.asarray(tifffile.imread(root / "out.tif")) if sel else None
+                    c2["tid"] = {int(n): int(tr2.get_track_id(n)) for n in g.nodes}
+                    c2["seg_in"] = seg_in
                 except Exception as e:  # noqa: BLE001
                     c2["rows"] = None
                     c2["exc"] = "%s: %s" % (type(e).__name__, str(e)[:120])
                 stats["csv_with_seg_tracks"] += 1
+                stats["csv_seg_large_track_ids"] = stats.get("csv_seg_large_track_ids", 0) + int(off > 0)
                 cases.append(c2)
             stats["geff_seg" if with_seg else "geff_noseg"] += 1
             stats["merge_graphs"] += int(merged)
@@ -416,6 +441,19 @@ def run(ctx):
                     else:
                         bad = bad or "export_to_csv raised %s" % c.get("exc")
                 else:
+                    if c.get("tif") is not None and bad is None:
+                        si, tid = c["seg_in"], c["tid"]
+                        exp = np.zeros(si.shape, dtype=np.uint64)
+                        for n in keep_o:
+                            exp[si == n] = tid[int(n)]
+                        got = c["tif"].astype(np.uint64) if c["tif"].shape == si.shape else None
+                        if got is None:
+                            bad = "csv segmentation shape %s, expected %s" % (c["tif"].shape, si.shape)
+                        elif not np.array_equal(got, exp):
+                            b_ = tuple(int(x) for x in np.argwhere(got != exp)[0])
+                            bad = "csv segmentation (dtype %s) pixel %s holds %d, expected track id %d of node %d" % (
+                                c["tif"].dtype, b_, int(got[b_]), int(exp[b_]), int(si[b_]))
+                        inp["track_ids"] = tid
                     if c["rows"] != m["rows"]:
                         divergences.append({"input": inp, "impl": c["rows"], "model": m["rows"], "what": "csv rows"})
                     bad = bad or oracle_csv(g, sel, c["rows"])
